@@ -396,10 +396,16 @@ class Gen:
         if "rewrite" in f and r.random() < 0.3:
             # line-rewriting / projecting functions (only used by relational checks: no reference semantics needed)
             for _ in range(r.choice([1, 1, 2])):
-                k = r.choice(["collect", "collect", "collecti", "replace", "append", "append-later", "reset_headers", "reset-then-append", "reset-then-append"])
+                k = r.choice(["collect", "collect", "collecti", "replace", "append", "append-later", "reset_headers", "reset-then-append", "reset-then-append", "collect+print_line", "print_line"])
                 at = ("eq", ("fn", "line_number", [], ["nocontrib"]), ("int", r.choice([1, 2, 3, 4])))
                 if k == "collect":
                     node = ("fn", "collect", [("hdr", h) for h in r.sample(["a", "b", "c", "d"], r.randint(1, 3))], [])
+                elif k == "print_line":
+                    node = ("fn", "print_line", [], [])
+                elif k == "collect+print_line":
+                    # print_line() prints the line as collect(...) will keep it
+                    comps.insert(r.randint(0, len(comps)), ("fn", "collect", [("hdr", h) for h in r.sample(["a", "b", "c", "d"], r.randint(1, 3))], []))
+                    node = ("fn", "print_line", [], [])
                 elif k == "collecti":
                     node = ("fn", "collect", [("int", i) for i in sorted(r.sample([0, 1, 2, 3, 4], r.randint(1, 3)))], [])
                 elif k == "replace":
